@@ -254,17 +254,21 @@ impl ImageMetadata {
         top: i32,
         inverse: bool,
     ) -> (u32, u32, i32, i32) {
+        // Image width can be as large as 2^31 (height of 2^30 with 2:1 aspect ratio), which doesn't
+        // fit in `i32`. Compute flipped coordinates in `i64`.
+        let flip_x = (width as i64 - left as i64 - 1) as i32;
+        let flip_y = (height as i64 - top as i64 - 1) as i32;
         let (left, top) = match self.orientation {
             1 => (left, top),
-            2 => (width as i32 - left - 1, top),
-            3 => (width as i32 - left - 1, height as i32 - top - 1),
-            4 => (left, height as i32 - top - 1),
+            2 => (flip_x, top),
+            3 => (flip_x, flip_y),
+            4 => (left, flip_y),
             5 => (top, left),
-            6 if inverse => (top, width as i32 - left - 1),
-            6 => (height as i32 - top - 1, left),
-            7 => (height as i32 - top - 1, width as i32 - left - 1),
-            8 if inverse => (height as i32 - top - 1, left),
-            8 => (top, width as i32 - left - 1),
+            6 if inverse => (top, flip_x),
+            6 => (flip_y, left),
+            7 => (flip_y, flip_x),
+            8 if inverse => (flip_y, left),
+            8 => (top, flip_x),
             _ => unreachable!(),
         };
         let (width, height) = match self.orientation {
